@@ -582,6 +582,57 @@ fn run_direct(case: &Value) -> Value {
 // script = [ {"ctl": ["crash"|"bounce"|null], "cmds": [cmd..]} .. ] one entry per Sim::step;
 // the clock seen by the commands of step k is k * tick (host timer since epoch).
 
+/// A second task of the host software: the consumer loop of a reaper that owns the
+/// completion side of ring `r`. It is started BEFORE anything is submitted, so it awaits
+/// `AsyncFd::readable()` on an idle ring; the interpreter task submits later. Every
+/// iteration is logged as [step, visible, [ud, res, null, null, flags] | null].
+async fn reaper(
+    ring: *mut IoUring,
+    fd: std::os::fd::RawFd,
+    log: std::rc::Rc<std::cell::RefCell<Vec<Value>>>,
+    step_no: std::rc::Rc<std::cell::Cell<u64>>,
+    order: std::rc::Rc<std::cell::RefCell<Vec<u8>>>,
+) {
+    let push = |v: Value| {
+        log.borrow_mut().push(v);
+        order.borrow_mut().push(1);
+    };
+    let afd = match AsyncFd::new(RingFdHandle(fd)) {
+        Ok(a) => a,
+        Err(_) => {
+            push(json!([step_no.get(), -1, Value::Null]));
+            return;
+        }
+    };
+    loop {
+        loop {
+            let (len, cqe) = {
+                // SAFETY: the ring lives in a Box owned by the interpreter task of the same
+                // host; both tasks run on one thread and never across an await of each other.
+                let ring = unsafe { &mut *ring };
+                let mut cq = ring.completion();
+                cq.sync();
+                (cq.len(), cq.next())
+            };
+            match cqe {
+                Some(c) => push(json!([
+                    step_no.get(),
+                    len,
+                    [c.user_data(), c.result(), Value::Null, Value::Null, c.flags()]
+                ])),
+                None => {
+                    push(json!([step_no.get(), len, Value::Null]));
+                    break;
+                }
+            }
+        }
+        if afd.readable().await.is_err() {
+            push(json!([step_no.get(), -1, Value::Null]));
+            return;
+        }
+    }
+}
+
 fn run_sim(case: &Value) -> Value {
     use std::cell::RefCell;
     use std::rc::Rc;
@@ -606,8 +657,13 @@ fn run_sim(case: &Value) -> Value {
     let times: Rc<RefCell<Vec<Value>>> = Rc::new(RefCell::new(Vec::new()));
     let boots = Rc::new(RefCell::new(0u64));
     let step_no = Rc::new(std::cell::Cell::new(0u64));
+    let reaper_log: Rc<RefCell<Vec<Value>>> = Rc::new(RefCell::new(Vec::new()));
+    // who produced the k-th record of a step: 0 = interpreter output, 1 = reaper iteration
+    let order: Rc<RefCell<Vec<u8>>> = Rc::new(RefCell::new(Vec::new()));
     let notify = Rc::new(tokio::sync::Notify::new());
     {
+        let reaper_log0 = reaper_log.clone();
+        let order0 = order.clone();
         let (queue, out, bufs_out, times, boots, notify, step_no) = (
             queue.clone(),
             out.clone(),
@@ -618,6 +674,8 @@ fn run_sim(case: &Value) -> Value {
             step_no.clone(),
         );
         sim.host("h", move || {
+            let reaper_log = reaper_log0.clone();
+            let order = order0.clone();
             let (queue, out, bufs_out, times, boots, notify, step_no) = (
                 queue.clone(),
                 out.clone(),
@@ -643,16 +701,29 @@ fn run_sim(case: &Value) -> Value {
                         if c[0] == "report_bufs" {
                             bufs_out.borrow_mut().push(it.final_bufs());
                             out.borrow_mut().push(Value::Null);
+                            order.borrow_mut().push(0);
+                            continue;
+                        }
+                        if c[0] == "spawn_reaper" {
+                            let r = c[1].as_u64().unwrap() as usize;
+                            let ring = it.rings[r].as_mut().unwrap();
+                            let fd = <IoUring as AsRawFd>::as_raw_fd(ring);
+                            let ptr: *mut IoUring = &mut **ring;
+                            tokio::task::spawn_local(reaper(ptr, fd, reaper_log.clone(), step_no.clone(), order.clone()));
+                            out.borrow_mut().push(Value::Null);
+                            order.borrow_mut().push(0);
                             continue;
                         }
                         if c[0] == "await_cqe" {
                             let r = c[1].as_u64().unwrap() as usize;
                             let o = it.await_cqe(r, &step_no).await;
                             out.borrow_mut().push(o);
+                            order.borrow_mut().push(0);
                             continue;
                         }
                         let o = it.cmd(&c, now, &mut closed);
                         out.borrow_mut().push(o);
+                        order.borrow_mut().push(0);
                         times.borrow_mut().push(json!(now.as_nanos() as u64));
                     }
                 }
@@ -662,6 +733,8 @@ fn run_sim(case: &Value) -> Value {
         });
     }
     let mut obs = Vec::new();
+    let mut reaped = Vec::new();
+    let mut orders = Vec::new();
     for (k, st) in case["script"].as_array().unwrap().iter().enumerate() {
         step_no.set(k as u64);
         match st["ctl"].as_str() {
@@ -677,10 +750,14 @@ fn run_sim(case: &Value) -> Value {
         // commands not executed (host crashed) are reported as missing
         queue.borrow_mut().clear();
         obs.push(json!(got));
+        let rl: Vec<Value> = reaper_log.borrow_mut().drain(..).collect();
+        reaped.push(json!(rl));
+        let ol: Vec<u8> = order.borrow_mut().drain(..).collect();
+        orders.push(json!(ol));
     }
     let t: Vec<Value> = times.borrow().clone();
     let bufs: Vec<Value> = bufs_out.borrow().clone();
-    json!({ "obs": obs, "times": t, "bufs": bufs, "panic": Value::Null })
+    json!({ "obs": obs, "reaped": reaped, "order": orders, "times": t, "bufs": bufs, "panic": Value::Null })
 }
 
 fn run_case(case: &Value) -> Value {
